@@ -104,7 +104,8 @@ class Op1Sub(Op1):
 
 
 class Op2(Op1):  # separate hierarchy root for default_conversion alternatives
-    pass
+    def __str__(self):
+        return "op2<%s>" % (self.v,)
 
 
 class Op3:
@@ -644,6 +645,27 @@ def _():
     reset_serializer(Op1Sub)
 
 
+@cfg("as_str.Op2", "conv_d", "conv_s", "op2")
+def _():
+    from apischema.conversions import as_str
+
+    as_str(Op2)
+
+
+@cfg("as_names.Color", "conv_d", "conv_s", "enum", "errors")
+def _():
+    from apischema.conversions import as_names
+
+    as_names(Color)
+
+
+@cfg("as_names.Color.upper", "conv_d", "conv_s", "enum", "errors")
+def _():
+    from apischema.conversions import as_names
+
+    as_names(Color, _upper)
+
+
 # -- object fields
 @cfg("set_object_fields.SOF.1", "fields")
 def _():
@@ -743,6 +765,11 @@ def _():
 @cfg("type_name.Cat.other", "typename", "disc", "schema")
 def _():
     type_name("Feline")(Cat)
+
+
+@cfg("type_name.P.graphql", "typename", "graphql")
+def _():
+    type_name(graphql="GqlP")(P)
 
 
 @cfg("type_name.P.str", "typename", "schema")
@@ -1045,7 +1072,10 @@ _des("C.maxprops", "C", {"d": {"a": 1, "b": 2, "c": 3}}, "err_max_properties", "
 _des("C.many", "C", {"a": -3, "b": 11, "s": "A", "l": [], "d": {}}, "errors")
 _des("L.bad_lit", "L", {"lit": "c"}, "err_one_of", "errors")
 _des("L.bad_enum", "L", {"color": "green"}, "err_one_of", "errors")
-_des("L.ok", "L", {"lit": "b", "color": "blue"}, "errors")
+_des("L.ok", "L", {"lit": "b", "color": "blue"}, "errors", "enum")
+_des("L.name", "L", {"color": "BLUE"}, "enum")
+_des("L.name_lower", "L", {"color": "blue"}, "enum")
+_des("Op2.str", "Op2", "abc", "op2", "conv_d")
 _des("N.ok", "N", {"pos": 6, "short": "ab", "tags": ["a"]}, "schemareg", "validator")
 _des("N.neg", "N", {"pos": -1}, "schemareg", "err_minimum", "errors")
 _des("N.small", "N", {"pos": 3}, "schemareg", "validator")
@@ -1172,7 +1202,8 @@ _ser("Q", "Q", lambda: Q(1, "s"), "exclude", "alias")
 _ser("Op1", "Op1", lambda: Op1(5), "conv_s")
 _ser("Op1Sub", "Op1Sub", lambda: Op1Sub(6), "conv_s")
 _ser("Op1.sub_instance", "Op1", lambda: Op1Sub(7), "conv_s")
-_ser("Op2", "Op2", lambda: Op2(8), "conv_s")
+_ser("Op2", "Op2", lambda: Op2(8), "conv_s", "op2")
+_ser("L", "L", lambda: L("b", Color.BLUE), "enum")
 _ser("H", "H", lambda: H(Op1(1), [Op1(2), Op1Sub(3)]), "conv_s")
 _ser("Op3", "Op3", lambda: Op3(3), "op3")
 _ser("H3", "H3", lambda: H3(Op3(4)), "op3")
@@ -1261,7 +1292,7 @@ for _t, _tags in [
     ("SOD", ("fields",)), ("HS", ("fields",)), ("TwoTN", ("typename", "schemareg")), ("Animal", ("disc", "typename")),
     ("Zoo", ("disc", "typename")), ("AL", ("alias",)), ("OR", ("order",)), ("DR", ("depreq",)),
     ("S1", ("serialized", "order")), ("S1Sub", ("serialized",)), ("Rec", ("alias", "addprops")), ("U", ()),
-    ("PosInt", ("schemareg",)), ("FL", ("flat", "alias", "fields")), ("LPet", ("lpet", "disc")),
+    ("PosInt", ("schemareg",)), ("FL", ("flat", "alias", "fields")), ("LPet", ("lpet", "disc")), ("L", ("enum",)),
 ]:
     _schemas(_t, *_tags)
 
